@@ -119,6 +119,7 @@ func (c *Channel) LeavePresence(ctx context.Context, status string, p stanza.Pre
 		}
 	}(errChan)
 
+	verifYield("leave.wait", p.ID)
 	select {
 	case err := <-errChan:
 		return err
@@ -220,6 +221,7 @@ func (c *Channel) JoinPresence(ctx context.Context, p stanza.Presence, opt ...Op
 		done: ctx.Done(),
 		j:    joinChan,
 	}
+	verifYield("join.enqueue", p.ID)
 	select {
 	case c.join <- joinCtx:
 	case <-ctx.Done():
@@ -262,6 +264,7 @@ func (c *Channel) JoinPresence(ctx context.Context, p stanza.Presence, opt ...Op
 		}
 	}(errChan)
 
+	verifYield("join.wait", p.ID)
 	select {
 	case err := <-errChan:
 		return err
